@@ -72,6 +72,13 @@ def variants():
     V["halo90"] = dict(halo=90.0)
     V["single"] = dict(precision="single")
     V["dispersion"] = dict(footprint=False)
+    # a 3x3 grid over 80 m x 80 m: the cell size 26.66.. is not representable, and a halo of 80 m is EXACTLY three cells -
+    # the pad width int(halo/dx) = 3 sits on a rounding knife-edge (80 // dx is 2).  The oracle is the uncached solve of the
+    # same request, so nothing here depends on which side of the edge the library falls, only on the cache agreeing with it.
+    knife = dict(srf_flx=np.ones((3, 3)), domain=(80.0, 80.0), modes=(64, 64), meas_pt=(26.0, 53.0))
+    V["knife-halo80"] = dict(knife, halo=80.0)
+    V["knife-haloNone"] = dict(knife, halo=None)
+    V["knife-halo70"] = dict(knife, halo=70.0)
     return V
 
 
@@ -165,6 +172,12 @@ def case_history(case):
                     continue
             served.append((name, verdict, cnt.n))
             d = _same(got, expected(name))
+            if case.get("caller_overwrites", True):
+                # the caller owns what it was handed: it normalises / reuses the arrays in place
+                for arr in list(got[0]) + [got[1], got[2]]:
+                    arr = np.asarray(arr)
+                    if arr.flags.writeable and arr.size:
+                        arr[...] = -777.0
             if d:
                 v.append({"sub": "stale", "sig": "stale/%s-after-%s" % (name, "+".join(hist[:k]) if k else "nothing"),
                           "msg": "request %s after %s (pattern %s): %s" % (name, hist[:k], pattern, d)})
@@ -355,6 +368,8 @@ def run(ctx):
                 # triples of three different non-base variants add no new key collision beyond the pairs they contain
                 continue
             hists.append(list(h))
+    if depth < 3:
+        hists += [[n, n, n] for n in NAMES]  # served, overwritten by the caller, served again
     cases = []
     for h in hists:
         pats = ["one-object"] if len(h) == 1 else (["one-object", "new-object", "two-process"] if len(h) == 2 else ["one-object", "two-process"])
